@@ -164,12 +164,18 @@ class CliWorld:
                     if not holders:
                         per[g].append(F.Owned(r, cd, []))
                         continue
+                    # two generators may list the same block for overlapping, non-nested sets of keys
+                    partial_keys = len(holders) > 1 and r.nkeys == 1 and ch.draw(2, "own-keyre") == 1
+                    if partial_keys:
+                        holders = holders[:2]
+                        self.probe("block_listed_for_overlapping_key_sets")
                     for n, i in enumerate(holders):
                         # several generators may list the same block: all but one must not be able to delete it
                         flag = cd if n == 0 else 1
                         if len(holders) > 1 and n == 0 and flag == 0:
                             flag = None
-                        per[i].append(F.Owned(r, flag, sub[i]))
+                        kre = None if not partial_keys else ("k\\d+" if n == 0 else "\\S*1")
+                        per[i].append(F.Owned(r, flag, sub[i], key_re=kre))
                     if len(holders) > 1:
                         self.probe("block_shared_by_generators")
                 elif r.block:
@@ -273,6 +279,7 @@ class Engine:
     wall = {"quick": 300, "thorough": 1200}
     selftest_n = {"quick": 24, "thorough": 96}
     chunk = 50
+    isolate = True      # every run in a child forked from the pristine engine process (annet keeps process-global caches)
     minimise_budget = {"quick": 600, "thorough": 3000}
     components_real = ["annet.api.adeploy / Deployer / CliDeployerJob / check_diff", "annet.gen.old_new and the generator "
                        "framework (PartialGenerator, ACL compile, apply_acl)", "annet.api._diff_and_patch (make_diff, make_pre, "
@@ -348,9 +355,9 @@ class Engine:
         base.update(kw)
         return cls(**base)
 
-    def deploy(self, world, dont_commit=False, no_check_diff=True):
+    def deploy(self, world, dont_commit=False, no_check_diff=True, filter_acl=None):
         args = self._opts(self.cli_args.DeployOptions, no_ask_deploy=True, no_check_diff=no_check_diff, no_progress=True,
-                          dont_commit=dont_commit)
+                          dont_commit=dont_commit, filter_acl=filter_acl or "")
         loader = F.SimLoader(world.inv, lambda d: (world.gens, []))
         deployer = self.api.Deployer(args)
         world.received = {}
@@ -420,7 +427,8 @@ class Engine:
         scenario = {"property": self.prop, "vendor": world.vname, "hw": world.hw.model, "rulebook": world.rb_text.split("\n"),
                     "ordering": world.order_text.split("\n"), "deploying": world.deploy_text.split("\n"),
                     "features": sorted(world.allow), "devices": len(world.inv), "full_ownership": world.full,
-                    "acl": [F.acl_text(o, world.rb.rev) for o in world.owners], "steps": steps_log}
+                    "acl": [F.acl_text(o, world.rb.rev) for o in world.owners], "filter_acl": getattr(world, "filter_text", None),
+                    "steps": steps_log}
         return {"violation": violation, "nontrivial": nontrivial, "sig": int.from_bytes(h.digest()[:8], "big"),
                 "sim_s": simloop._installed.clock.now, "steps": len(world.events), "faults": world.faults, "probes": world.probes,
                 "strategy": world.vname, "scenario": scenario, "trace": world.events}
@@ -572,7 +580,7 @@ class Engine:
                 if m is None:
                     continue
                 rule = m[0]
-                holders = [o for owned in level_owned for o in owned if o.rule is rule]
+                holders = [o for owned in level_owned for o in owned if o.rule is rule and o.covers(row, rb.rev)]
                 if holders:
                     break
             if rule is None:
@@ -593,7 +601,7 @@ class Engine:
         for row, sub in tree.items():
             m = W.match_direct(rules, rb.globals, row, rb.rev)
             r = m[0] if m else None
-            holders = [o for owned in level_owned for o in owned if o.rule is r] if r is not None else []
+            holders = [o for owned in level_owned for o in owned if o.rule is r and o.covers(row, rb.rev)] if r is not None else []
             if not holders and r is not None and r.twin is not None:
                 holders = [o for owned in level_owned for o in owned if o.rule is r.twin]     # reverse form of an owned line
             if not holders:
@@ -626,7 +634,39 @@ class Engine:
                     return res
         return None
 
+    def _filter_file(self, ch, world):
+        """an operator's --filter-acl: plain rules (no flags) selecting some top-level rule families with everything below"""
+        import tempfile
+        if ch.draw(3, "use-filter") != 0:
+            return None
+        lines = []
+        for r in world.rb.rules:
+            if ch.draw(3, "filter-rule") != 0:
+                lines.append(r.pattern(world.rb.rev))
+                if r.block:
+                    lines.append("    ~ %global")
+        if not lines:
+            lines = ["~ %global"]
+        f = tempfile.NamedTemporaryFile("w", prefix="annetsim-filter-", suffix=".acl", delete=False)
+        f.write("\n".join(lines) + "\n")
+        f.close()
+        world.probe("filter_acl_in_use")
+        world.filter_text = lines
+        return f.name
+
     def _run_c02(self, ch, world, steps_log):
+        import os as _os
+        path = self._filter_file(ch, world)
+        try:
+            return self._run_c02_inner(ch, world, steps_log, path)
+        finally:
+            if path:
+                try:
+                    _os.unlink(path)
+                except OSError:
+                    pass
+
+    def _run_c02_inner(self, ch, world, steps_log, filter_path):
         rb = world.rb
         nsteps = 2 + ch.draw(3, "nsteps")
         found = []
@@ -711,7 +751,7 @@ class Engine:
                 st["after"] = _after
                 hook(inv, device, k, c)
             world.cmd_hook = hook_with_len
-            rc, deployer, out = self.deploy(world, no_check_diff=True)
+            rc, deployer, out = self.deploy(world, no_check_diff=True, filter_acl=filter_path)
             world.cmd_hook = None
             steps_log.append({"step": step, "rc": rc, "commands": sum(len(v) for v in world.received.values()),
                               "fetch_faults": {k: v.get("fail") or "stall" for k, v in world.fetch_plan.items()},
